@@ -1,7 +1,207 @@
+(** C08 — the chart's cached values and its embedded workbook agree cell for cell.
+    Statements over model/Xlsx.v; proofs in proofs/Xlsx_proofs.v.
+
+    Reading guide.  [get sh r c] is the cell of Sheet1 at 0-based row r, column c.
+    A structured reference [rng] has 1-based columns c1..c2 and rows r1..r2;
+    [render_rng] is its text (Sheet1!$B$2:$B$5).  [agree_cat_ser sh e] / [agree_xy_ser sh e]
+    (model/Xlsx.v) is the property for one c:ser: every reference is a well-formed
+    range with as many rows as its c:ptCount, every c:pt idx lies inside, and every row
+    of the range holds exactly what the cache says at that index (no cached point =
+    empty cell); level i of a multi-level category cache reads column c2 - i; the c:f
+    texts are the renderings of the structured references. *)
 From V.lib Require Import Prelude.
 From V.model Require Import Xlsx.
 From V.proofs Require Import Xlsx_proofs.
+Open Scope N_scope.
 
-Theorem C08_stub : True.
-Proof. exact stub_true. Qed.
-Print Assumptions C08_stub.
+(** Column references: reading the letters back gives the number, for every n >= 1
+    (no upper bound); letters are A..Z; at least one letter. *)
+Theorem C08_colref : forall n, 1 <= n ->
+  parse_col (column_letters n) = n /\
+  Forall (fun ch => 65 <= ch <= 90) (column_letters n) /\
+  column_letters n <> [].
+Proof. exact (fun n H => conj (column_letters_inverse n H) (conj (column_letters_AZ n) (column_letters_nonempty n H))). Qed.
+Print Assumptions C08_colref.
+
+(** The guard of _column_reference: ValueError exactly outside 1..16384, the letters inside. *)
+Theorem C08_colref_guard : forall n,
+  (column_reference n = Err ValueErr <-> (n < 1 \/ 16384 < n)) /\
+  (1 <= n <= 16384 -> column_reference n = Ok (column_letters n)).
+Proof. exact column_reference_guard. Qed.
+Print Assumptions C08_colref_guard.
+
+(** The series references raise exactly when the series column (1 + depth + index,
+    so category depth is accounted for) is beyond column 16384 = XFD, which is also
+    the last column XlsxWriter stores. *)
+Theorem C08_series_ref_guard : forall depth idx len,
+  (values_ref_text depth idx len = Err ValueErr <-> 16384 < series_col_number depth idx) /\
+  (series_name_ref_text depth idx = Err ValueErr <-> 16384 < series_col_number depth idx).
+Proof. exact series_ref_text_guard. Qed.
+Print Assumptions C08_series_ref_guard.
+
+(** Category chart, series j: the name cell and the cell of every value, addressed
+    through the structured references; range height = c:ptCount.  No hypothesis on the
+    data beyond the sheet limits. *)
+Theorem C08_cat_cells : forall d depth sh j s,
+  forest_depth (cd_cats d) = Ok depth -> cat_sheet d = Ok sh ->
+  nth_error (cd_series d) j = Some s ->
+  series_col_number depth (N.of_nat j) <= xl_colmax ->
+  let nr := series_name_rng depth (N.of_nat j) in
+  let vr := values_rng depth (N.of_nat j) (len_N (s_vals s)) in
+  get sh (r_r1 nr - 1) (r_c1 nr - 1) = xl_write_str (name_of (s_name s)) /\
+  r_c1 vr = r_c2 vr /\ r_c1 vr = r_c1 nr /\
+  r_r2 vr + 1 - r_r1 vr = pt_count (val_cache (s_vals s)) /\
+  (forall k v, nth_error (s_vals s) k = Some v -> r_r1 vr - 1 + N.of_nat k < xl_rowmax ->
+     get sh (r_r1 vr - 1 + N.of_nat k) (r_c1 vr - 1) = xl_cell (pv_of_val v)).
+Proof. exact cat_cells_by_ref. Qed.
+Print Assumptions C08_cat_cells.
+
+(** Category chart, hierarchy level i (0 = leaves): as many levels as columns of the
+    categories reference; the level's idx values are distinct and below the leaf count
+    (= range height); the cell at row r1 + k of column c2 - i holds the label whose
+    idx is k, and is empty when no category of that level has idx k. *)
+Theorem C08_cat_levels : forall d depth sh i l k,
+  forest_depth (cd_cats d) = Ok depth -> cat_sheet d = Ok sh -> 1 <= depth -> depth <= xl_colmax ->
+  nth_error (levels (cd_cats d)) i = Some l ->
+  let cr := categories_rng depth (forest_leaf_count (cd_cats d)) in
+  k < forest_leaf_count (cd_cats d) -> forest_leaf_count (cd_cats d) < xl_rowmax ->
+  r_c1 cr + N.of_nat i <= r_c2 cr /\
+  r_r2 cr + 1 - r_r1 cr = forest_leaf_count (cd_cats d) /\
+  len_N (levels (cd_cats d)) = r_c2 cr + 1 - r_c1 cr /\
+  (forall e, In e l -> fst e < forest_leaf_count (cd_cats d)) /\
+  NoDup (map fst l) /\
+  get sh (r_r1 cr - 1 + k) (r_c2 cr - N.of_nat i - 1) =
+    match lookup k l with Some lab => xl_cell lab | None => Empty end.
+Proof. exact cat_levels_by_ref. Qed.
+Print Assumptions C08_cat_levels.
+
+(** Category chart, the property: for all chart data in [cat_domain] (strings stored
+    verbatim by XlsxWriter, no empty series, no None among numeric labels, date labels
+    without time of day and date system 1900, rows within the sheet, depth <= 26) every c:ser of
+    the XML agrees with the sheet, for either value b of the chart's date1904 flag
+    that [cat_domain b] allows. *)
+Theorem C08_cat_chart : forall b d es sh,
+  cat_domain b d = true -> cat_xml b d = Ok es -> cat_sheet d = Ok sh ->
+  forallb (agree_cat_ser sh) es = true.
+Proof. exact cat_chart_agrees. Qed.
+Print Assumptions C08_cat_chart.
+
+(** XY / bubble, series j of arbitrary lengths: what its table holds (offset = 2 j +
+    points of all earlier series). *)
+Theorem C08_xy_cells : forall b all j s,
+  nth_error all j = Some s -> table_facts b (xy_sheet b all) (row_offset all j) s.
+Proof. exact xy_sheet_facts. Qed.
+Print Assumptions C08_xy_cells.
+
+(** Tables of different series do not overlap: within a series name row <= first value
+    row, X and Y ranges share rows; the last row series j refers to, plus a spacer row,
+    lies before the first row a later series k refers to.  Any lengths, including 0. *)
+Theorem C08_xy_tables_disjoint : forall b all j k sj sk,
+  (j < k)%nat -> nth_error all j = Some sj -> nth_error all k = Some sk ->
+  let ej := xy_ser_of b all j sj in
+  let ek := xy_ser_of b all k sk in
+  r_r1 (xs_name_rng ej) <= r_r1 (xs_x_rng ej) /\
+  r_r1 (xs_x_rng ej) = r_r1 (xs_y_rng ej) /\ r_r2 (xs_x_rng ej) = r_r2 (xs_y_rng ej) /\
+  r_r2 (xs_y_rng ej) + 1 < r_r1 (xs_name_rng ek) /\
+  r_r1 (xs_name_rng ej) = row_offset all j + 1 /\
+  r_r2 (xs_y_rng ej) = row_offset all j + 1 + xy_len sj.
+Proof. exact xy_tables_disjoint. Qed.
+Print Assumptions C08_xy_tables_disjoint.
+
+Theorem C08_xy : forall all,
+  xy_domain all = true -> forallb (agree_xy_ser (xy_sheet false all)) (xy_xml false all) = true.
+Proof. exact (xy_chart_agrees false). Qed.
+Print Assumptions C08_xy.
+
+Theorem C08_bubble : forall all,
+  xy_domain all = true -> forallb (agree_xy_ser (xy_sheet true all)) (xy_xml true all) = true.
+Proof. exact (xy_chart_agrees true). Qed.
+Print Assumptions C08_bubble.
+
+(** Histories: after a new chart and any sequence of replace_data (and of changes of
+    the chart's date1904 flag) that raises nothing, the XML and the sheet are those of
+    the data written last, with the date system in force at that moment; one embedded
+    workbook part; and the property holds whenever that data is in the domain. *)
+Theorem C08_replace : forall d0 ops st,
+  run_ops (new_chart d0) ops = Ok st ->
+  let last := track d0 false false ops in
+  xml_of (snd last) (fst last) = Ok (ch_xml st) /\ sheet_of (fst last) = Ok (ch_sheet st) /\
+  ch_parts st = 1 /\
+  (data_domain (snd last) (fst last) = true -> agree_chart st = true).
+Proof. exact history_agrees. Qed.
+Print Assumptions C08_replace.
+
+(** The texts written into c:f are the renderings of the structured references;
+    categories_ref only up to depth 26 (it uses chr(ord(A) + depth - 1)). *)
+Theorem C08_ref_texts :
+  (forall depth idx len t, values_ref_text depth idx len = Ok t -> t = render_rng (values_rng depth idx len)) /\
+  (forall depth idx t, series_name_ref_text depth idx = Ok t ->
+     t = render_cell (column_letters (r_c1 (series_name_rng depth idx))) (r_r1 (series_name_rng depth idx))) /\
+  (forall depth leafs, 1 <= depth <= 26 ->
+     categories_ref_text depth leafs = Ok (render_rng (categories_rng depth leafs))) /\
+  (forall col off len, 1 <= col <= 26 -> xy_col_ref_text col off len = render_rng (xy_col_rng col off len)) /\
+  (forall off, xy_name_ref_text off = render_cell (column_letters (r_c1 (xy_name_rng off))) (r_r1 (xy_name_rng off))).
+Proof.
+  exact (conj values_ref_text_render (conj series_name_ref_text_render
+        (conj categories_ref_text_render (conj xy_ref_text_render xy_name_ref_text_render)))).
+Qed.
+Print Assumptions C08_ref_texts.
+
+(** Edge the proof forces: an empty series gets a reversed range ($B$2:$B$1). *)
+Theorem C08_empty_series_range : forall depth idx col off,
+  r_r2 (values_rng depth idx 0) < r_r1 (values_rng depth idx 0) /\
+  r_r2 (xy_col_rng col off 0) < r_r1 (xy_col_rng col off 0).
+Proof. exact empty_series_range. Qed.
+Print Assumptions C08_empty_series_range.
+
+Theorem C08_empty_series_ref_text :
+  values_ref_text 1 0 0 = Ok [83; 104; 101; 101; 116; 49; 33; 36; 66; 36; 50; 58; 36; 66; 36; 49].
+Proof. exact empty_series_ref_text. Qed.
+Print Assumptions C08_empty_series_ref_text.
+
+(** Outside the domain the faithful model refutes the property (cat_verdict = Some
+    false: XML and sheet are produced and disagree): a name starting with =, an empty
+    series, a datetime label with a time of day, datetime(1900,1,1), a date label on a
+    chart whose XML says date1904 (the same data agrees under 1900), None among numeric
+    labels; 27 category levels (26 agree); XY and bubble data with an empty series. *)
+Theorem C08_outside_domain_refuted :
+  cat_verdict false w_formula = Some false /\ cat_verdict false w_empty = Some false /\
+  cat_verdict false w_time = Some false /\ cat_verdict false w_1900 = Some false /\
+  cat_verdict true w_date = Some false /\ cat_verdict false w_date = Some true /\
+  cat_verdict false w_none = Some false /\
+  cat_verdict false w_depth27 = Some false /\ cat_verdict false ex_depth26 = Some true /\
+  xy_verdict false w_xy_empty = false /\ xy_verdict true w_xy_empty = false.
+Proof. exact witnesses_refuted. Qed.
+Print Assumptions C08_outside_domain_refuted.
+
+Theorem C08_depth27_refuted :
+  categories_ref_text 27 1 = Ok (render_range [65] 2 [91] 2) /\ ~ (65 <= 91 <= 90).
+Proof. exact depth27_ref_not_a_column. Qed.
+Print Assumptions C08_depth27_refuted.
+
+Theorem C08_long_string_refuted : forall s,
+  formula_like s = false -> array_formula_like s = false -> url_like s = false ->
+  xl_strmax < len_N s ->
+  exists s', xl_write_str s = Str s' /\ len_N s' = xl_strmax /\ s' <> s /\
+             cell_agrees (Some (CStr s)) (xl_write_str s) = false.
+Proof. exact long_string_truncated. Qed.
+Print Assumptions C08_long_string_refuted.
+
+(** Non-vacuity: concrete data inside the domains (three-level ragged hierarchy with
+    None and number labels; dates either side of 1900-03-01 and a midnight datetime;
+    XY / bubble series of lengths 2, 1, 3), a history, column references. *)
+Example C08_examples_in_domain :
+  cat_domain false ex_cat = true /\ cat_verdict false ex_cat = Some true /\
+  cat_domain false ex_dates = true /\ cat_verdict false ex_dates = Some true /\
+  xy_domain ex_xy = true /\ xy_verdict false ex_xy = true /\ xy_verdict true ex_xy = true.
+Proof. exact examples_in_domain. Qed.
+
+Example C08_example_history :
+  exists st, run_ops (new_chart (CatD ex_cat)) [OpReplace (CatD ex_dates); OpDate1904 true; OpReplace (CatD ex_cat)] = Ok st
+             /\ agree_chart st = true /\ ch_parts st = 1.
+Proof. exact example_history. Qed.
+
+Example C08_example_colref :
+  column_reference 703 = Ok [65; 65; 65] /\ column_reference 16384 = Ok [88; 70; 68] /\
+  column_reference 16385 = Err ValueErr /\ column_reference 0 = Err ValueErr /\ parse_col [88; 70; 68] = 16384.
+Proof. exact example_colref. Qed.
